@@ -1,6 +1,7 @@
 """C10 Every connection encoder is a faithful, total and onto coding of connection sets - structural clauses."""
 import ast
 
+from ..rules.match import FnText
 from ..model import AnalysisError, norm
 from ..cfg import build_cfg
 from ..astutil import short, call_name
@@ -45,12 +46,12 @@ def bounds_regions(ctx, rule='A16'):
             ctx.ob(rule, fkey(fn, rule, f'n={nopt}:v={v}'), out.kind == 'fall' and vv == want, fn.where,
                    f'entry {v} of a variable with {nopt} options is corrected to {want}', f'{out.kind} {vv}',
                    nontrivial=(v in (-1, 0, nopt - 1, nopt)))
-    t = ' '.join(norm(s) for s in fn.body)
+    t = FnText(ctx, fn)
     ok = 'correct_vector = vector.copy()' in t
     ctx.ob(rule, fkey(fn, rule, 'input-not-modified'), ok, fn.where,
            'the correction works on a copy (the caller\'s vector is not modified)', '')
     cs = ctx.fn(f'{ENC}:EagerEncoder.correct_vector_size')
-    t = ' '.join(norm(s) for s in cs.body)
+    t = FnText(ctx, cs)
     ok = 'n_extra = len(vector) - n_dv' in t and 'vector = vector[:n_dv]' in t
     ctx.ob(rule, fkey(cs, rule, 'size-truncation'), ok, cs.where,
            'a vector longer than the declared variables is truncated (the surplus is reported separately)', '')
@@ -96,25 +97,25 @@ def publication_guards(ctx, rule='A5'):
             ok = False
     ctx.ob(rule, fkey(ge, rule, 'eager-two-options-check'), ok, ge.where,
            'an eagerly encoded variable with fewer than 2 options is refused (raise)', short(tt[0].ast) if tt else '')
-    t2 = ' '.join(norm(s) for s in ge.body)
+    t2 = FnText(ctx, ge)
     ok = "raise RuntimeError('Not all design vectors are unique!')" in t2 and \
         "raise RuntimeError('Design variables should start at zero!')" in t2
     ctx.ob(rule, fkey(ge, rule, 'unique-and-zero-based'), ok, ge.where,
            'duplicate design vectors and variables not starting at 0 are refused (equal vectors <=> equal matrices; '
            'declared range = used range)', '')
     fd = ctx.fn(f'{LAZY}:LazyEncoder._filter_dvs')
-    t3 = ' '.join(norm(s) for s in fd.body)
+    t3 = FnText(ctx, fd)
     ok = 'if dv.n_opts >= 2' in t3
     ctx.ob(rule, fkey(fd, rule, 'filter-keeps-two-or-more'), ok, fd.where,
            'lazy encoders keep only variables with at least 2 options', '')
     # pattern encoders: trivial cases declare no variable
     comb = ctx.fn('adsg_core.optimization.assign_enc.patterns.patterns:CombiningPatternEncoder._encode_effective')
-    t4 = ' '.join(norm(s) for s in comb.body)
+    t4 = FnText(ctx, comb)
     ok = 'if n_opts < 2: return []' in t4.replace('\n', ' ') or ('if n_opts < 2' in t4 and 'return []' in t4)
     ctx.ob(rule, fkey(comb, rule, 'combining-no-variable-if-trivial'), ok, comb.where,
            'the combining pattern declares no variable when there is nothing to choose', '')
     part = ctx.fn('adsg_core.optimization.assign_enc.patterns.patterns:PartitioningPatternEncoder._matches_pattern')
-    t5 = ' '.join(norm(s) for s in part.body)
+    t5 = FnText(ctx, part)
     ok = 'len(src) == 1 and tgt[0].conns == [1]' in t5
     ctx.ob(rule, fkey(part, rule, 'partitioning-rejects-no-choice'), ok, part.where,
            'the partitioning pattern rejects settings with one source and required targets (one option per '
